@@ -340,6 +340,28 @@ def check(P, R, modules, scope=None, rules=("T1", "T2", "T3", "T4", "T5", "T6", 
                 else:
                     n += 1
                     R.violation(rule + ".searchsorted", f.key, src(c)[:60], f"binary search in `{src(hay)[:30]}`, which is not produced by a sort (np.sort / np.unique / sorted) but from {'the iteration order of a set / dict' if unordered else 'the labels as given'}: for labels whose order as stored is not ascending (negative or large ids) the positions returned are wrong and distinct classes are merged", c.lineno)
+        if "T9" in rules or "T6" in rules:
+            # `if all(mask): X[mask] = ...`: the body works on the selected part only (it indexes with the mask), so it is meant to
+            # run as soon as something is selected; guarded by all() it is skipped whenever one element is not selected
+            for node in [x for x in ast.walk(f.node) if isinstance(x, ast.If)]:
+                t = node.test
+                neg = False
+                while isinstance(t, ast.UnaryOp) and isinstance(t.op, ast.Not):
+                    t, neg = t.operand, not neg
+                if neg:
+                    continue
+                mname = None
+                if isinstance(t, ast.Call) and isinstance(t.func, ast.Name) and t.func.id == "all" and len(t.args) == 1:
+                    a0 = t.args[0]
+                    mname = a0.target.id if isinstance(a0, ast.NamedExpr) else (a0.id if isinstance(a0, ast.Name) else None)
+                elif isinstance(t, ast.Call) and isinstance(t.func, ast.Attribute) and t.func.attr == "all" and isinstance(t.func.value, ast.Name) and not t.args:
+                    mname = t.func.value.id
+                if mname is None:
+                    continue
+                used = [x for b in node.body for x in ast.walk(b) if isinstance(x, ast.Subscript) and any(isinstance(y, ast.Name) and y.id == mname for y in ast.walk(x.slice))]
+                if used and not node.orelse:
+                    n += 1
+                    R.violation(rule + ".all-guard", f.key, src(node.test)[:60], f"the statements under `if all({mname})` index with `{mname}` - they update the selected elements only - but run only when *every* element is selected: as soon as one element is not (a component without data), none is updated", node.lineno)
         if "T6" in rules:
             for node in indexany_sites(f.node):
                 n += 1
